@@ -297,9 +297,68 @@ def run(db: DB, rep: Report) -> None:
     f = db.func("teaal.parse.equation.EquationParser.parse")
     _check_sign(db, rep, f)
 
+    # ---- L7 / L8: the wrappers hand the text to the grammar and return its tree ---
+    rep.rule("L7", "the text handed to each Lark parser is the caller's text, unmodified", 5)
+    rep.rule("L8", "every result of a parse wrapper is the tree the grammar produced", 5)
+    _check_wrappers(db, rep)
+
     # ---- L6 -----------------------------------------------------------------
     rep.rule("L6", "NAME[0..N] stores int(N)+1 instances; NAME stores 1", 2)
     _check_range(db, rep)
+
+
+def _check_wrappers(db: DB, rep: Report) -> None:
+    n_wrap = 0
+    for gid, (modname, clsname) in GRAMMARS.items():
+        c = db.cls(modname + "." + clsname)
+        lark_attrs = {k for k, v in c.class_attrs.items()
+                      if isinstance(v, ast.Call) and norm(v.func).split(".")[-1] == "Lark"}
+        for nm, f in sorted(c.methods.items()):
+            calls = [n for n in walk_no_nested(f.node) if isinstance(n, ast.Call) and
+                     isinstance(n.func, ast.Attribute) and n.func.attr == "parse" and
+                     isinstance(n.func.value, ast.Attribute) and n.func.value.attr in lark_attrs]
+            if not calls and not nm.startswith("parse"):
+                continue
+            n_wrap += 1
+            params = f.call_params
+            for call in calls:
+                ok = len(call.args) == 1 and isinstance(call.args[0], ast.Name) and call.args[0].id in params \
+                    and not any(isinstance(x, ast.Name) and isinstance(x.ctx, ast.Store) and
+                                x.id == call.args[0].id for x in walk_no_nested(f.node))
+                rep.check("L7", ok, db.loc(call), f.short, "parser-input:" + f.short,
+                          "%s parses its parameter as given (%s)" % (f.short, norm(call.args[0]) if call.args else "?"),
+                          "%s hands %s to the grammar instead of the text it was given: pre-processing can "
+                          "turn text outside the grammar into text inside it (or change what is parsed)" %
+                          (f.short, norm(call.args[0])[:60] if call.args else "nothing"))
+            # every return is (a local bound only to) the parser's result
+            rets = [n for n in walk_no_nested(f.node) if isinstance(n, ast.Return)]
+            tree_names = set()
+            for n in walk_no_nested(f.node):
+                if isinstance(n, ast.Assign) and len(n.targets) == 1 and isinstance(n.targets[0], ast.Name) \
+                        and n.value in calls:
+                    tree_names.add(n.targets[0].id)
+            for nm_ in list(tree_names):
+                others = [v for st, v in paths.defs_of(f.node, nm_) if v is not None and v not in calls]
+                # in-place normalisation of the tree (tree.children = ...) is not a rebinding
+                if any(isinstance(st, (ast.Assign, ast.AnnAssign)) and isinstance(
+                        (st.targets[0] if isinstance(st, ast.Assign) else st.target), ast.Name)
+                       for st, v in paths.defs_of(f.node, nm_) if v is not None and v not in calls):
+                    tree_names.discard(nm_)
+            ok = bool(rets) and bool(calls)
+            for r in rets:
+                v = r.value
+                if v in calls:
+                    continue
+                if isinstance(v, ast.Name) and v.id in tree_names:
+                    continue
+                ok = False
+            rep.check("L8", ok, db.loc(f.node), f.short, "parser-output:" + f.short,
+                      "%s returns the grammar's tree on every path" % f.short,
+                      "%s has a return that is not the result of its Lark parser (%s): some input text "
+                      "bypasses the grammar" % (f.short, [norm(r.value)[:50] for r in rets if r.value not in calls
+                                                          and not (isinstance(r.value, ast.Name) and r.value.id in tree_names)]))
+    if n_wrap < 5:
+        raise AnalysisError("only %d parse wrappers found (floor 5)" % n_wrap)
 
 
 def _else_absorbs(db: DB, gid: str, covered: Set[str]) -> Optional[str]:
@@ -388,8 +447,27 @@ def _check_sign(db: DB, rep: Report, f) -> None:
                           "negative coefficient: %s (negation parity %s)" % (norm(s.value), parity),
                           "the token written back for a '-N' coefficient is not an odd number of "
                           "negations of int(N): the sign (or the value) of the coefficient changes")
-    if not (found_pos and found_neg):
-        raise AnalysisError("sign normalisation dispatch not found in EquationParser.parse")
+    # L5b: whatever the form, a value written back into the tree depends only on
+    # locals set within the same term's iteration
+    for lp in [n for n in walk_no_nested(fn) if isinstance(n, ast.For)]:
+        stores = [x for s_ in lp.body for x in ast.walk(s_) if isinstance(x, ast.Assign) and
+                  isinstance(x.targets[0], ast.Subscript) and "children" in norm(x.targets[0])]
+        assigned = {x.id for s_ in lp.body for x in ast.walk(s_)
+                    if isinstance(x, ast.Name) and isinstance(x.ctx, ast.Store)}
+        targets = {x.id for x in ast.walk(lp.target) if isinstance(x, ast.Name)}
+        for st in stores:
+            for nm in sorted((paths.load_names(st.value) & assigned) - targets):
+                def is_def(n, nm=nm):
+                    if isinstance(n, (ast.Assign, ast.AnnAssign, ast.AugAssign)):
+                        ts = n.targets if isinstance(n, ast.Assign) else [n.target]
+                        return any(isinstance(t, ast.Name) and t.id == nm for t in ts)
+                    return False
+                bad = paths.must_precede(lp.body, is_def, lambda n: n is st)
+                rep.check("L5", not bad, db.loc(st), f.short, "fresh:%s@%s" % (nm, norm(st.targets[0])),
+                          "'%s' used in the rewrite %s is set within the same term" % (nm, norm(st)[:50]),
+                          "the token written back by '%s' depends on '%s', which is not assigned on every path "
+                          "of the current term's iteration: the sign (or value) of one coefficient leaks into "
+                          "the next" % (norm(st)[:70], nm))
 
 
 def _check_range(db: DB, rep: Report) -> None:
@@ -481,6 +559,15 @@ def mutants(db: DB):
         M("neg: sign lost", eq, "str(-1 * int(pos))", "str(int(pos))", "L5"),
         M("neg: double negation", eq, "str(-1 * int(pos))", "str(-1 * -int(pos))", "L5"),
         M("pos: wrong child", eq, "itimes.children[0] = num.children[0]", "itimes.children[0] = num.children[-1]",
+          "L5"),
+        M("whitespace squashed before parsing", pt,
+          "        return PartitioningParser.ranks_parser.parse(info)", "        return PartitioningParser.ranks_parser.parse(\"\".join(info.split()))",
+          "L7"),
+        M("level fast path bypasses the grammar", lv, "        return LevelParser.parser.parse(info)",
+          "        if \"[\" not in info:\n            return Tree(\"single\", [info])\n        return LevelParser.parser.parse(info)", "L8"),
+        M("sticky sign variable", eq,
+          "            if num.data == \"pos\":\n                itimes.children[0] = num.children[0]\n\n            # Otherwise, it is a negative\n            else:\n                pos = num.children[0]\n                assert isinstance(pos, Token)\n                itimes.children[0] = Token(\"NUMBER\", str(-1 * int(pos)))",
+          "            if num.data == \"neg\":\n                sign = -1\n            pos = num.children[0]\n            itimes.children[0] = Token(\"NUMBER\", str(sign * int(pos)))",
           "L5"),
         M("N+1 -> N", "teaal/parse/arch.py", 'tree["num"] = int(num) + 1', 'tree["num"] = int(num)', "L6"),
         M("single -> 0", "teaal/parse/arch.py", 'tree["num"] = 1', 'tree["num"] = 0', "L6"),
